@@ -97,6 +97,8 @@ type deferred struct {
 }
 
 type rangeInfo struct {
+	curKey   string // key yielded by the latest Next (valid inside the loop body)
+	curKeyTy types.Type
 	instr    *ssa.Range
 	mapType  *types.Map
 	mapTerm  string
